@@ -212,7 +212,7 @@ Print Assumptions C08_confirmed_orphans_are_dropped.
    string, raw multicall answers) and applies ToWormholeMessage / parseAttestToken / GetTokenInfo / toMessagePublication exactly
    where watcher.go / reobserve.go apply them; abs_* maps raw data onto the abstract identifiers of model.AlphWatcher. *)
 From Coq Require Import Strings.Byte.
-From WH Require Import lib.Bytes model.Vaa model.AlphPipeline proofs.AlphPipelineProofs.
+From WH Require Import lib.Bytes model.Vaa model.AlphPipeline proofs.AlphPipelineRead proofs.AlphPipelineBase proofs.AlphPipelineSafety.
 
 (* the abstraction commutes with every step: everything proved above about model.AlphWatcher holds for the composed watcher *)
 Theorem C08_pipeline_refines_watcher : forall c s o,
